@@ -27,16 +27,19 @@ NOT_APPLICABLE = {}
 NOTES = ("All checks are bounded-exhaustive (model checking family): they enumerate schedules, histories, fault "
          "positions or inputs completely inside the bound stated in the evidence file; nothing in a deciding path samples.")
 ENGINES = [
-    {"name": "E1 detsched", "path": "/verif/engine/vsched + /verif/engine/instr", "serves_properties": ["C01", "C02", "C10", "C14"],
+    {"name": "E1 detsched", "path": "/verif/engine/vsched + /verif/engine/instr", "serves_properties": ["C01", "C03", "C10", "C13", "C14"],
      "kind_free_text": "AST instrumenter (go -overlay) + cooperative deterministic scheduler + stateless DFS with iterative deviation bounding over the real goroutines"},
-    {"name": "E2 xstate", "path": "/verif/harness/server/zzverif_xstate_test.go", "serves_properties": ["C03", "C04", "C06", "C07", "C08", "C09", "C11", "C13", "C15"],
+    {"name": "E2 xstate", "path": "/verif/harness/server/zzverif_xstate_test.go", "serves_properties": ["C02", "C03", "C04", "C05", "C06", "C07", "C08", "C09", "C10", "C11", "C12", "C13", "C14", "C15", "C16", "C17", "C19"],
      "kind_free_text": "explicit-state BFS over request histories executed on the real server (replay from a fresh instance), canonical state keys with a key-soundness check, optional single-fault enumeration per transition"},
-    {"name": "E3 memdb", "path": "/verif/engine/memdb", "serves_properties": ["C01", "C08", "C18"],
+    {"name": "E3 memdb", "path": "/verif/engine/memdb", "serves_properties": ["C01", "C02", "C03", "C04", "C05", "C06", "C07", "C08", "C09", "C10", "C11", "C12", "C13", "C14", "C15", "C16", "C19"],
      "kind_free_text": "in-memory reference store adapter (store contract transcribed from the MySQL adapter) with call journal, fault injection and crash images"},
-    {"name": "E4 enum", "path": "/verif/harness", "serves_properties": ["C04", "C05", "C12", "C17", "C19", "C20"],
+    {"name": "E4 enum", "path": "/verif/harness", "serves_properties": ["C04", "C05", "C12", "C13", "C16", "C17", "C19", "C20"],
      "kind_free_text": "bounded-exhaustive input enumeration of the real functions against reference implementations"},
     {"name": "E5 sqlfake", "path": "/verif/harness/server/db/mysql", "serves_properties": ["C18"],
      "kind_free_text": "fake database/sql driver under the real MySQL adapter; every statement position x fault kind"},
+    {"name": "E6 election", "path": "/verif/harness/server/zzverif_c17_test.go + /verif/engine/vrpc + /verif/engine/vnet", "serves_properties": ["C17"],
+     "kind_free_text": "N real Cluster objects running their real run() loops under the deterministic scheduler, net/rpc replaced by a harness-owned "
+                       "transport; deviation-bounded breadth-first search over timer / delivery / loss / partition events to a fixpoint"},
 ]
 
 
@@ -130,7 +133,7 @@ reg(Check("C17", "model_checking",
           text="Exhaustive enumeration of ring constructions; explicit-state search over election / health-check event histories of "
                "real Cluster objects; exhaustive sequences through the inter-node endpoints.",
           note="", technique="bounded-exhaustive enumeration; explicit-state model checking of the implementation (deviation-bounded)",
-          engine="E4 enum", claimed=True,
+          engine="E4 enum + E6 election", claimed=True,
           parts=[Part("ring", "server/ringhash", "^TestVerifC17Ring$", shards=(8, 8)),
                  Part("election3", SRV, "^TestVerifC17Election3$", instr=True, gomaxprocs=16, deadline=(120, 3000)),
                  Part("gate", SRV, "^TestVerifC17Gate$", instr=True, shards=(8, 16), deadline=(120, 1800)),
